@@ -175,10 +175,21 @@ class SqlalchemyRender:
                 "or": sa.or_,
             }
 
-            arg0 = self.to_expression(t.args[0])
-            arg1 = self.to_expression(t.args[1])
-
             op = t.op.lower()
+
+            arg0 = self.to_expression(t.args[0])
+            if (
+                    op in ('is', 'is not')
+                    and isinstance(t.args[1], ast.Constant)
+                    and (t.args[1].value is None or t.args[1].value is True or t.args[1].value is False)
+            ):
+                # IS [NOT] NULL / TRUE / FALSE: the operand has to be the sql element, not a bound value,
+                # sqlalchemy is not able to negate `x IS <bound value>`: NOT (x IS NULL) was rendered as x IS NULL
+                value = t.args[1].value
+                arg1 = sa.null() if value is None else (sa.true() if value else sa.false())
+            else:
+                arg1 = self.to_expression(t.args[1])
+
             if op in ('in', 'not in'):
                 if isinstance(arg1, sa.sql.selectable.ColumnClause):
                     raise NotImplementedError(f'Required list argument for: {op}')
